@@ -41,6 +41,14 @@ CLAIMED = {
              'assert_validity did (the expect() in from_variant is unreachable); Optional::or and unit::check_attributes are total and '
              'correct. Not claimed: that accepted expansions compile (needs rustc in the loop).',
         ref='DESIGN.md 4 (C16)'),
+    'C15': dict(
+        text='For attribute lists of up to 3 attributes whose kind (name-value or not, path `doc` or not, string literal or not) is '
+             'symbolic and whose doc texts are all strings of the stated lengths over {* / newline space a " backslash}, the real '
+             'parse_docs/escape_doc (MIR) return either the empty string (no doc text) or exactly one block that starts with /**, ends '
+             'with */ + newline, contains no other */ (also none formed with the surrounding stars), and contains every text in order '
+             '(modulo the *\\/ escape); never panic. FieldAttr::merge concatenates docs and drops them for flattened fields, for all '
+             'attribute records. Doc-bearing declarations in shared files are C05 inputs; layout of DOCS before `export` is C04.',
+        ref='DESIGN.md 4 (C15)'),
 }
 
 NOT_APPLICABLE = {
